@@ -190,6 +190,10 @@ DOMNode* DOMElementNSImpl::rename(const XMLCh* namespaceURI, const XMLCh* name)
 {
     setName(namespaceURI, name);
     fAttributes->reconcileDefaultAttributes(getDefaultAttributes());
+
+    // the element changed its name in place: live lists of elements by
+    // tag name must notice
+    ((DOMDocumentImpl *) fParent.fOwnerDocument)->changed();
     // and fire user data NODE_RENAMED event
     castToNodeImpl(this)->callUserDataHandlers(DOMUserDataHandler::NODE_RENAMED, this, this);
 
